@@ -411,7 +411,11 @@ func (p *Process) internalStop() error {
 }
 
 func (p *Process) stopProcess(cancelReadinessFuncs bool) error {
-	p.runCancelFn()
+	if cancelReadinessFuncs {
+		// a stop requested from outside: this instance must not be (re)launched anymore. The
+		// internal stop after a fatal readiness probe leaves the decision to the restart policy.
+		p.runCancelFn()
+	}
 	// test and change in one step: the process may end, and record its final state, at any moment
 	if !p.compareAndSetState(types.ProcessStateTerminating,
 		types.ProcessStateRunning, types.ProcessStateLaunched, types.ProcessStateLaunching) {
